@@ -156,7 +156,7 @@ fn chain_case(args: &Args, rng: &mut Rng, out: &mut Streams, dist: &mut Dist, sc
   let flags = match if flagsweep { 5 } else { rng.below(6) } {
     0..=2 => Flags::all(),
     _ => {
-      let mut f = Flags::from_bits(if flagsweep { (case % 32) as u32 } else { rng.below(32) as u32 });
+      let mut f = Flags::from_bits(if flagsweep { (args.seed.wrapping_add(case) % 32) as u32 } else { rng.below(32) as u32 });
       if !f.sats && !f.addr && !f.ins && !f.runes {
         f.ins = true;
       }
